@@ -40,6 +40,7 @@ import (
 	"google.golang.org/protobuf/proto"
 
 	"github.com/drand/drand/v2/common"
+	dchain "github.com/drand/drand/v2/common/chain"
 	"github.com/drand/drand/v2/common/key"
 	"github.com/drand/drand/v2/common/log"
 	"github.com/drand/drand/v2/crypto"
@@ -634,9 +635,15 @@ func (s *netSim) dump() string {
 		if len(rounds) > 0 {
 			last = rounds[len(rounds)-1]
 		}
-		parts = append(parts, fmt.Sprintf("n%d:last=%d:cnt=%d:gapfree=%v:valid=%v:linked=%v:sigs=%s", i, last, len(rounds), gapfree, valid, linked, strings.Join(digs, ".")))
+		// the chain hash the node serves (its vault's chain info) and the one of the group it holds now
+		ch := "-"
+		if h := s.handlerOf(i); h != nil {
+			v := h.VerifVault()
+			ch = v.GetInfo().HashString()[:12] + "/" + dchain.NewChainInfo(v.GetGroup()).HashString()[:12]
+		}
+		parts = append(parts, fmt.Sprintf("n%d:last=%d:cnt=%d:gapfree=%v:valid=%v:linked=%v:ch=%s:sigs=%s", i, last, len(rounds), gapfree, valid, linked, ch, strings.Join(digs, ".")))
 	}
-	return "dump " + strings.Join(parts, " ")
+	return "dump " + strings.Join(parts, " ") + " ch0=" + dchain.NewChainInfo(s.group).HashString()[:12]
 }
 
 func (s *netSim) close() {
